@@ -106,7 +106,15 @@ def rules(rep, m):
         negated = cond["kind"] == "UnaryOperator" and cond.get("opcode") == "!"
         branch = kids(ifs[0])[2] if negated and len(kids(ifs[0])) > 2 else kids(ifs[0])[1]
         if negated and len(kids(ifs[0])) <= 2:
-            raise AnalysisBroken("cmb_resourceguard_signal: cannot locate the granted branch")
+            # guard-clause form: if (!demand(...)) return ...;  the grant path is what follows in the same block
+            parent = [a_ for a_ in inv.enclosing_chain(sig, ifs[0]) if a_["kind"] == "CompoundStmt"]
+            if not inv._ends_in_exit(kids(ifs[0])[1]) or not parent:
+                raise AnalysisBroken("cmb_resourceguard_signal: cannot locate the granted branch")
+            sib = kids(parent[-1])
+            at = [i_ for i_, s_ in enumerate(sib) if s_ is ifs[0]]
+            if not at:
+                raise AnalysisBroken("cmb_resourceguard_signal: cannot locate the granted branch")
+            branch = {"kind": "CompoundStmt", "inner": sib[at[0] + 1:]}
         seen_deq = False
         for s in kids(branch):
             calls = [x for x in walk(s) if x["kind"] == "CallExpr"]
